@@ -174,6 +174,14 @@ def loop_checks(chk, prog, fn, reader, only_tail=False):
             chk.ob("R-TABLE", FN, False, "an iteration stores a block without exactly one name match (names %s, field %s)" % (true_lits, upd_field), w, key="dispatch-shape#%d" % n_next)
         it = val[li]
         chk.ob("R-LIN", FN, it[0] == "mutated" and it[3][0] == I, "one pointer consumed per iteration", w, key="advance")
+    # after the last block nothing else touches the reader: the message ends where its last block ends
+    try:
+        ret = loops.exit_value(prog, fn, lp, opaque=[GNEW])
+        touched = [e[0] for e in lp.get("exit_effects", []) if any(sym._mentions(a, reader) or a == reader for a in e[1])]
+        chk.ob("R-ORDER", FN, not touched and ret == ok(L), "after the last block the reader is left alone and the assembled message is returned" if (not touched and ret == ok(L)) else
+               "after the block loop the decoder still uses the reader (%s) or returns %s" % (", ".join(x.split("::")[-1] for x in touched) or "-", show(ret)[:120]), w, key="nothing-after-last-block")
+    except sym.Undecided as e:
+        chk.blind("R-ORDER", FN, "code after the block loop undecided: %s" % e, w)
     if only_tail:
         chk.floor("type-31 iteration shapes", n_next, 10)
         return
